@@ -1013,6 +1013,25 @@ add("joinfirst-08-hh-descriptor-names-cms-block", ["C08"], "helpers",
 add("dead-11-filler-killed-only-when-already-finished", ["C19"], "helpers",
     "                if fill_queue_process.exitcode is None:\n                    fill_queue_process.kill()", "                if fill_queue_process.exitcode is not None:\n                    fill_queue_process.kill()",
     note="after a worker died the still-running filler blocks on the full queue: parallel_add hangs in fill_queue_process.join()")
+_NGRAM_LINEAR_CALL = '            _add_linear(\n                cms,\n                n_added_records,\n                buckets,\n                width,\n                depth,\n                uint_maxval,\n                key[i : i + ngram],\n                uint32(1),\n            )\n'
+add("window-11-ngram-loop-returns-at-a-saturated-window", ["C01", "C12"], "countmin", _NGRAM_LINEAR_CALL,
+    "            min_count = _query_linear(cms, buckets, width, depth, uint_maxval, key[i : i + ngram])\n"
+    "            if min_count >= uint_maxval:\n                return\n"
+    "            new_count = min_count + uint32(1)\n            n_added_records[0] += uint64(1)\n"
+    "            for row in range(depth):\n                if cms[row, buckets[row]] < new_count:\n                    cms[row, buckets[row]] = new_count\n",
+    note="the add is written out in the window loop and its `nothing to do` return leaves the loop: later windows are never added")
+add("window-12-ngram-loop-only-queries", ["C01", "C12"], "countmin", _NGRAM_LINEAR_CALL,
+    "            _query_linear(cms, buckets, width, depth, uint_maxval, key[i : i + ngram])\n",
+    note="the windows are looked up, not added")
+add("E-window-03-ngram-loop-inlined-add-with-continue", ["C01", "C05", "C12", "C18"], "countmin", _NGRAM_LINEAR_CALL,
+    "            min_count = _query_linear(cms, buckets, width, depth, uint_maxval, key[i : i + ngram])\n"
+    "            if min_count != uint_maxval:\n"
+    "                new_count = min_count + uint32(1)\n                n_added_records[0] += uint64(1)\n"
+    "                for row in range(depth):\n                    if cms[row, buckets[row]] < new_count:\n                        cms[row, buckets[row]] = new_count\n",
+    kind="U", note="a correct written-out add: not a violation; the window rule does not recognise the shape (exit 2 is acceptable, exit 1 is not)")
+add("seeddep-01-tail-result-drops-the-seeded-accumulator", ["C14"], "hashes",
+    "        h ^= _fhmix64(v)\n        h *= m\n\n    return _fhmix64(h)", "        h = _fhmix64(v)\n        h *= m\n\n    return _fhmix64(h)",
+    note="for keys whose length is not a multiple of 8 the hash no longer depends on the seed: every row picks the same column")
 add("factory-07-num-reserved-zero-taken-for-unset", ["C16"], "countmin",
     "    elif cms_type == \"log16\":\n        if num_reserved is None:", "    elif cms_type == \"log16\":\n        if not num_reserved:",
     note="CountMin(..., num_reserved=0) builds a log16 sketch with the default 1023: an attached view decodes differently")
